@@ -107,6 +107,8 @@ Theorem C02_constraint_algebra_tie :
   (forall (a b : acon) (k : constr),
      invert (AAnd a b) = mk gen_and_invert (invert a) (invert b) /\
      invert (AOr a b) = mk gen_or_invert (invert a) (invert b) /\
+     invert (AAlt a b) = mk gen_alt_invert (invert a) (invert b) /\
+     apply_acon (AAlt a b) = apply_acon (mk gen_alt_apply_as a b) /\ gen_union_value_is_alt = true /\
      invert ANull = ANull /\ apply_acon ANull = [] /\
      (gen_leaf_invert_flips = true /\ invert (ALeaf k) = ALeaf (flip k)) /\
      (gen_and_apply_concat = true /\ apply_acon (AAnd a b) = apply_acon a ++ apply_acon b) /\
@@ -242,6 +244,17 @@ Theorem C02_narrow_no_widening_plain : forall V c pol o,
   member o (narrow V c pol) = true -> member o V = true \/ member o (tested c) = true.
 Proof. exact narrow_no_widening_plain. Qed.
 Print Assumptions C02_narrow_no_widening_plain.
+
+(* union-valued conditions (`(a) if f() else (b)`, AlternativesConstraint): covered by the main theorem
+   (CIfExp); neither branch may become empty when the two members disagree *)
+Example C02_alternatives_example :
+  let V := [plain (VKnown ONone); plain (VTuple [(true, TIntE)]); plain (VKnown (OInt 1))] in
+  let c := CIfExp true (CIsInstance [CStr]) (CNot (CIsInstance [CStr])) in
+  narrow V c false = V /\ narrow V c true = V /\
+  holds c (OInt 1) = Some false /\ holds (CIfExp false (CIsInstance [CStr]) (CNot (CIsInstance [CStr]))) (OInt 1) = Some true /\
+  c02_guard c (OInt 1) = true.
+Proof. exact alternatives_example. Qed.
+Print Assumptions C02_alternatives_example.
 
 (* (1')/(2') the same two statements for what an `if` makes of x end to end, where visit_BoolOp
    first merges a narrowed copy of x (by the first operand) into the variable *)
